@@ -46,3 +46,28 @@ def case_id(case):
     if not case:
         return ''
     return ','.join('%s=%s' % (k, case[k]) for k in sorted(case))
+
+
+def enc_case(x):
+    """JSON-safe encoding of case parameters (bytes, tuples)."""
+    if isinstance(x, bytes):
+        return {'__bytes__': x.decode('latin-1')}
+    if isinstance(x, tuple):
+        return {'__tuple__': [enc_case(y) for y in x]}
+    if isinstance(x, list):
+        return [enc_case(y) for y in x]
+    if isinstance(x, dict):
+        return {k: enc_case(v) for k, v in x.items()}
+    return x
+
+
+def dec_case(x):
+    if isinstance(x, dict):
+        if '__bytes__' in x:
+            return x['__bytes__'].encode('latin-1')
+        if '__tuple__' in x:
+            return tuple(dec_case(y) for y in x['__tuple__'])
+        return {k: dec_case(v) for k, v in x.items()}
+    if isinstance(x, list):
+        return [dec_case(y) for y in x]
+    return x
